@@ -13,3 +13,4 @@ import RenetVerif.Lemmas.SrcEquiv.NcToken
 import RenetVerif.Lemmas.SrcEquiv.NcSequence
 import RenetVerif.Lemmas.SrcEquiv.SendUnrel
 import RenetVerif.Lemmas.SrcEquiv.RecvUnrel
+import RenetVerif.Lemmas.SrcEquiv.SendRel
